@@ -21,9 +21,9 @@ PROPS["C04"] = {
     "units": [{
         "pkg": "pkg/scan",
         "tests": [
-            T("TestC04Perm", {"checks": 400, "env": {"C04_MAXN": 1 << 20}},
+            T("TestC04Perm", {"checks": 500, "shards": 4, "env": {"C04_MAXN": 1 << 20}},
               {"checks": 400, "shards": 8, "env": {"C04_MAXN": 1 << 24}}),
-            T("TestC04Table", {"checks": 3000}, {"checks": 40000, "shards": 4}),
+            T("TestC04Table", {"checks": 10000}, {"checks": 40000, "shards": 4}),
             T("TestC04Reject", {"checks": 2000}, {"checks": 50000}),
         ] + [
             # full walks of the groups the existing tests never reach: n = 2^k for k=17..32, and P-1 of the last rows
@@ -40,10 +40,10 @@ PROPS["C05"] = {
                     "math/rand is re-seeded per case so that the Ethernet and raw-IP frames of one case are comparable"],
     "units": [{
         "pkg": "command",
-        "tests": [T("TestC05Fillers", {"checks": 6000}, {"checks": 25000, "shards": 8}),
+        "tests": [T("TestC05Fillers", {"checks": 10000, "shards": 2}, {"checks": 60000, "shards": 8}),
                   T("TestC05Spoofed", {"checks": 12, "shards": 3, "env": {"C05_FILLS": 150000}},
                     {"checks": 40, "shards": 8, "env": {"C05_FILLS": 400000}}),
-                  T("TestC05Commands", {"checks": 250, "shards": 4}, {"checks": 3000, "shards": 16})],
+                  T("TestC05Commands", {"checks": 500, "shards": 8}, {"checks": 3000, "shards": 16})],
     }, {
         "pkg": "command", "race": True,
         "tests": [T("TestC05Concurrent", {"checks": 25, "shards": 4, "gomaxprocs": [16, 4, 2, 16]}, {"checks": 250, "shards": 16, "gomaxprocs": [16, 4, 2, 16]})],
@@ -56,12 +56,12 @@ PROPS["C18"] = {
                     "raw (unescaped) non-UTF-8 bytes in --payload are a documented don't-care"],
     "units": [{
         "pkg": "command",
-        "tests": [T("TestC18Ports", {"checks": 3000}, {"checks": 60000, "shards": 8}),
-                  T("TestC18Rate", {"checks": 5000}, {"checks": 100000, "shards": 4}),
-                  T("TestC18Flags", {"checks": 5000}, {"checks": 100000, "shards": 4}),
-                  T("TestC18Payload", {"checks": 4000}, {"checks": 80000, "shards": 4}),
-                  T("TestC18Exclude", {"checks": 2500}, {"checks": 50000, "shards": 8}),
-                  T("TestC18Commands", {"checks": 300, "shards": 4}, {"checks": 4000, "shards": 16})],
+        "tests": [T("TestC18Ports", {"checks": 6000, "shards": 2}, {"checks": 60000, "shards": 8}),
+                  T("TestC18Rate", {"checks": 12000}, {"checks": 100000, "shards": 4}),
+                  T("TestC18Flags", {"checks": 12000}, {"checks": 100000, "shards": 4}),
+                  T("TestC18Payload", {"checks": 10000}, {"checks": 80000, "shards": 4}),
+                  T("TestC18Exclude", {"checks": 4000, "shards": 2}, {"checks": 50000, "shards": 8}),
+                  T("TestC18Commands", {"checks": 500, "shards": 8}, {"checks": 4000, "shards": 16})],
     }, {
         "pkg": "command", "fuzz": True, "thorough_only": True,
         "tests": [F("FuzzC18Ports", "60s"), F("FuzzC18Rate", "60s"), F("FuzzC18Flags", "45s"), F("FuzzC18Exclude", "60s")],
@@ -101,7 +101,7 @@ PROPS["C06"] = {
                     "necessary conditions only: the check never demands a record"],
     "units": [{
         "pkg": "command",
-        "tests": [T("TestC06Frames", {"checks": 5000, "shards": 4}, {"checks": 30000, "shards": 16})],
+        "tests": [T("TestC06Frames", {"checks": 15000, "shards": 8}, {"checks": 150000, "shards": 16})],
     }, {
         "pkg": "command", "fuzz": True, "thorough_only": True,
         "tests": [F("FuzzC06TCP", "90s"), F("FuzzC06ICMP", "90s"), F("FuzzC06ARP", "60s")],
@@ -115,7 +115,7 @@ PROPS["C07"] = {
     "units": [{
         "pkg": "command", "race": True,
         "tests": [T("TestC07Pipeline", {"checks": 100, "shards": 8, "gomaxprocs": [1, 2, 4, 16], "env": {"C07_MAXN": 3000}},
-                    {"checks": 400, "shards": 16, "gomaxprocs": [1, 2, 4, 16], "env": {"C07_MAXN": 3000}})],
+                    {"checks": 2500, "shards": 16, "gomaxprocs": [1, 2, 4, 16], "env": {"C07_MAXN": 3000}})],
     }],
 }
 
@@ -127,7 +127,7 @@ PROPS["C08"] = {
     "units": [{
         "pkg": "command", "race": True,
         "tests": [T("TestC08Engine", {"checks": 25, "shards": 12, "gomaxprocs": [1, 2, 4, 16], "env": {"C08_MAXN": 4500}},
-                    {"checks": 250, "shards": 16, "gomaxprocs": [1, 2, 4, 16], "env": {"C08_MAXN": 5000}}),
+                    {"checks": 500, "shards": 16, "gomaxprocs": [1, 2, 4, 16], "env": {"C08_MAXN": 5000}}),
                   T("TestC08ErrorRecords", {"checks": 12, "shards": 6}, {"checks": 80, "shards": 12})],
     }],
 }
@@ -158,8 +158,8 @@ PROPS["C02"] = {
                     "exclusion-file parsing itself is C18's TestC18Exclude"],
     "units": [{
         "pkg": "command",
-        "tests": [T("TestC02TargetStrings", {"checks": 500, "shards": 4}, {"checks": 6000, "shards": 16}),
-                  T("TestC02Exclusion", {"checks": 60, "shards": 4}, {"checks": 800, "shards": 16})],
+        "tests": [T("TestC02TargetStrings", {"checks": 1000, "shards": 8}, {"checks": 6000, "shards": 16}),
+                  T("TestC02Exclusion", {"checks": 100, "shards": 8}, {"checks": 800, "shards": 16})],
     }, {
         "pkg": "command", "fuzz": True, "thorough_only": True,
         "tests": [F("FuzzC02Target", "90s")],
@@ -175,8 +175,8 @@ PROPS["C03"] = {
                     "don't-cares: NS bit with SYN+ACK, a port of another chunk, vendor string, fragments (not generated)"],
     "units": [{
         "pkg": "command",
-        "tests": [T("TestC03Detection", {"checks": 40, "shards": 10}, {"checks": 400, "shards": 16}),
-                  T("TestC03Netns", {"checks": 6, "shards": 6}, {"checks": 60, "shards": 12}),
+        "tests": [T("TestC03Detection", {"checks": 80, "shards": 10}, {"checks": 1500, "shards": 16}),
+                  T("TestC03Netns", {"checks": 10, "shards": 8}, {"checks": 60, "shards": 12}),
                   T("TestC03Burst", {"checks": 3, "shards": 4}, {"checks": 20, "shards": 8}),
                   T("TestC03NetnsQuiet", {"checks": 1, "shards": 3}, {"checks": 6, "shards": 6})],
     }],
@@ -190,7 +190,7 @@ PROPS["C13"] = {
     "units": [{
         "pkg": "command",
         "tests": [T("TestC13Stack", {"checks": 4000, "shards": 4}, {"checks": 40000, "shards": 16}),
-                  T("TestC13Commands", {"checks": 150, "shards": 8}, {"checks": 2000, "shards": 16})],
+                  T("TestC13Commands", {"checks": 100, "shards": 8}, {"checks": 2000, "shards": 16})],
     }],
 }
 
@@ -231,7 +231,7 @@ PROPS["C16"] = {
     "max_parallel": 12,
     "units": [{
         "pkg": "command",
-        "tests": [T("TestC16ExitDelay", {"checks": 10, "shards": 12}, {"checks": 120, "shards": 16}),
+        "tests": [T("TestC16ExitDelay", {"checks": 16, "shards": 12}, {"checks": 120, "shards": 16}),
                   T("TestC16AppExitDelay", {"checks": 10, "shards": 4}, {"checks": 100, "shards": 8})],
     }],
 }
@@ -244,7 +244,7 @@ PROPS["C19"] = {
     "max_parallel": 12,
     "units": [{
         "pkg": "command",
-        "tests": [T("TestC19Live", {"checks": 40, "shards": 8}, {"checks": 400, "shards": 16}),
+        "tests": [T("TestC19Live", {"checks": 80, "shards": 8}, {"checks": 400, "shards": 16}),
                   T("TestC19Command", {"checks": 8, "shards": 6}, {"checks": 80, "shards": 12})],
     }],
 }
@@ -276,7 +276,7 @@ PROPS["C09"] = {
     "max_parallel": 8,
     "units": [{
         "pkg": "pkg/scan/socks5",
-        "tests": [T("TestC09Scripts", {"checks": 120, "shards": 8}, {"checks": 1500, "shards": 16}),
+        "tests": [T("TestC09Scripts", {"checks": 250, "shards": 8}, {"checks": 4000, "shards": 16}),
                   T("TestC09AllReplies", {"checks": 1}, {"checks": 1, "env": {"C09_ALL": 1}, "timeout": 3000})],
     }, {
         "pkg": "command",
@@ -293,7 +293,7 @@ PROPS["C10"] = {
     "max_parallel": 8,
     "units": [{
         "pkg": "command",
-        "tests": [T("TestC10Probes", {"checks": 60, "shards": 8}, {"checks": 800, "shards": 16}),
+        "tests": [T("TestC10Probes", {"checks": 120, "shards": 8}, {"checks": 2500, "shards": 16}),
                   T("TestC10Command", {"checks": 16, "shards": 2}, {"checks": 100, "shards": 4}),
                   T("TestC10KnownDockerNull", {"checks": 1})],
     }],
@@ -309,6 +309,6 @@ PROPS["C17"] = {
     "max_parallel": 16,
     "units": [{
         "pkg": "command",
-        "tests": [T("TestC17Netns", {"checks": 12, "shards": 16}, {"checks": 200, "shards": 16})],
+        "tests": [T("TestC17Netns", {"checks": 30, "shards": 16}, {"checks": 200, "shards": 16})],
     }],
 }
